@@ -42,7 +42,13 @@ func H_C17() {
 	}
 	eq, diff := TreeEq(b.Root, ref.Root, 0)
 	if diff != "" {
-		Fail("C17:same-structure-and-values", shortDiff(diff))
+		if c17Family(ref.Root) == htmlFamily {
+			// the open/close-tag handling of formatter and printer is one known defect:
+			// its consequences are keyed by the family, not by the slot that differs
+			Fail("C17:same-structure-and-values", htmlFamily)
+		} else {
+			Fail("C17:same-structure-and-values", shortDiff(diff))
+		}
 	} else {
 		Assert("C17:same-structure-and-values|"+firstNodeKinds(ref.Root), eq)
 	}
